@@ -32,9 +32,9 @@ def load_json(p, default):
         return default
 
 
-def verify_unit(name, repo, vacuity=False):
+def verify_unit(name, repo, vacuity=False, drop_asserts=None):
     u = load_unit(name)
-    g = generate(u, repo, vacuity=vacuity)
+    g = generate(u, repo, vacuity=vacuity, drop_asserts=drop_asserts)
     res = run_verus(g.text, name)
     out = parse(res, g, name)
     attempts = 1
@@ -44,7 +44,7 @@ def verify_unit(name, repo, vacuity=False):
     rounds = 0
     while out['status'] == 'error' and out.get('hard_fns') and None not in out['hard_fns'] and rounds < 3:
         bad = set(out['hard_fns']) | set(g.stubbed)
-        g = generate(u, repo, vacuity=vacuity, stub_fns=bad)
+        g = generate(u, repo, vacuity=vacuity, stub_fns=bad, drop_asserts=drop_asserts)
         for k in bad:
             if not any(l.startswith(k + ': ') for l in g.lost):
                 g.lost.append('%s: rejected by the verifier front end' % k)
@@ -205,6 +205,17 @@ def main(argv):
     vac = None
     for uname in cfg['units']:
         u, g, res, out, attempts = verify_unit(uname, repo)
+        # a failed labelled ASSERTION that belongs to another property would be assumed by Verus for the rest of that function
+        # (tainting this property's obligations there): verify once more without those assertions
+        also0 = [re.compile(x) for x in cfg.get('also', [])]
+        foreign = []
+        for ob in out['failed']:
+            o_ = g.obligations.get(ob)
+            if o_ and o_['kind'] == 'assertion in proof hint' and '::hint.trait.' not in ob and not (prop in o_['props'] or any(r.search(ob) for r in also0)):
+                foreign.append((o_['fn'], ob.rsplit('::', 1)[1]))
+        if foreign:
+            u, g, res, out, attempts = verify_unit(uname, repo, drop_asserts=foreign)
+            notes.append('re-verified without failing assertions of other properties: %s' % sorted(set(foreign)))
         cmds.append(res['cmd'] + '   # on the file generated from %s by vx (unit %s), %d attempt(s)' % (repo, uname, attempts))
         smt_ms += out.get('smt_ms', 0)
         for k, v in out.get('times', {}).items():
